@@ -51,3 +51,32 @@ def programs(tier):
                 assume = lambda env, n_=n: [c for r in range(n_) for c in (env.cell("L", "a", r)[0] >= -100, env.cell("L", "a", r)[0] <= 100)]
             progs.append(Program(text, srcs, ordered=ordered, family="F06", note=text.split("(")[0], env_globals={"dx": dx}, assume=assume))
     return progs
+
+
+def length_programs(tier):
+    """row counts answered from metadata (Len / Size / Lengths rewrites) must equal the computed counts"""
+    import dask_expr as dx
+    from dask_expr._collection import new_collection
+    from dask_expr._reductions import Len
+    from dask_expr._expr import Lengths
+    from .gen import root, chains, FRAME_OPS
+
+    g = {"dx": dx, "LEN": lambda c: new_collection(Len(c.expr)), "LENGTHS": lambda c: new_collection(Lengths(c.expr))}
+    K = {"a": "i", "b": "f", "c": "i"}
+    progs = []
+    for nrows, nparts in ([(5, 3)] if tier == "quick" else [(5, 3), (4, 2), (6, 4)]):
+        L = root("L", K, nparts)
+        srcs = [Src("L", nrows, K, nparts)]
+        R = Src("R", 3, {"a": "i", "e": "i"}, 2)
+        nodes = [n for n in chains(L, 1 if tier == "quick" else 2, ops=["project", "filter", "assign", "arith", "rename", "elem", "reset_index", "dropna", "dedup", "repartition", "shuffle", "head", "cum", "window"]) if n.kind == "frame"]
+        extra = ["L.partitions[[1]]", "L.partitions[[2, 0]]", "(L + 1).partitions[[1, 2]]", "L.a", "L.index", "dx.concat([L, L])", "L.merge(R, on='a')", "L.a.to_frame()", "L[['a']].fillna(1).partitions[[0]]"]
+        R2 = Src("R", 4, {"a": "i", "b": "f", "e": "i"}, nparts + 1)
+        unaligned = ["L.b.fillna(R.b)", "L.a.mask(L.a > 1, R.a)", "L.a.where(L.a > 1, R.e)", "L.a + R.a", "L.assign(z=R.e)", "L[['a']].fillna(R[['a']])"]
+        for text in unaligned:
+            for wrap in ("LEN({})", "{}.size"):
+                progs.append(Program(wrap.format(text), [srcs[0], R2], ordered=False, family="F06-len", note="unaligned/" + wrap.split("(")[0].strip("{}.") , env_globals=g))
+        for text in [n.text for n in nodes] + extra:
+            s2 = srcs + ([R] if "R," in text or "R)" in text else [])
+            for wrap in ("LEN({})", "{}.size", "LENGTHS({})"):
+                progs.append(Program(wrap.format(text), s2, ordered=False, family="F06-len", note=wrap.split("(")[0].strip("{}.") or "size", env_globals=g))
+    return progs
